@@ -77,6 +77,11 @@ func opensslSign(v osslVariant, content []byte, k *keys.Key, cert *x509.Certific
 
 // opensslVerify: content == nil means "use the encapsulated content".
 func opensslVerify(tool string, blob, content []byte) (ok bool, out string) {
+	return opensslVerifyWith(tool, blob, content, nil)
+}
+
+// opensslVerifyWith also supplies the signer certificate (-certfile) for blobs made with -nocerts.
+func opensslVerifyWith(tool string, blob, content []byte, cert *x509.Certificate) (ok bool, out string) {
 	dir, err := os.MkdirTemp("", "vcheck-ossl-")
 	if err != nil {
 		return false, err.Error()
@@ -87,6 +92,10 @@ func opensslVerify(tool string, blob, content []byte) (ok bool, out string) {
 	if content != nil {
 		os.WriteFile(filepath.Join(dir, "content"), content, 0o644)
 		args = append(args, "-content", "content")
+	}
+	if cert != nil {
+		os.WriteFile(filepath.Join(dir, "signer.pem"), keys.CertPEM(cert), 0o644)
+		args = append(args, "-certfile", "signer.pem")
 	}
 	cmd := exec.Command("openssl", args...)
 	cmd.Dir = dir
